@@ -193,6 +193,35 @@ Definition wf_mrow (r : mrow) : bool :=
 
 Definition wf_table (m : mapping) : bool := forallb wf_mrow (m_rows m).
 
+(* the rows a remap file names for a mode, in the order of the file *)
+Fixpoint file_rows (strict : bool) (mode : option str) (ls : list str) : res (list row) :=
+  match ls with
+  | [] => Ok []
+  | l :: ls' =>
+      match remap_line strict mode l with
+      | Err e => Err e
+      | Ok None => file_rows strict mode ls'
+      | Ok (Some r) => match file_rows strict mode ls' with
+                       | Ok rs => Ok (r :: rs)
+                       | Err e => Err e
+                       end
+      end
+  end.
+
+Definition remap_rows (mode : option str) (text : str) : res (list row) :=
+  file_rows true mode (lines_of text).
+
+(* the rows of the files of hooks.customisationDirs, one after the other *)
+Fixpoint files_rows (mode : option str) (texts : list str) : res (list row) :=
+  match texts with
+  | [] => Ok []
+  | t :: ts => match remap_rows mode t, files_rows mode ts with
+               | Ok a, Ok b => Ok (a ++ b)
+               | Err e, _ => Err e
+               | _, Err e => Err e
+               end
+  end.
+
 (* ------------------------------------------------------------------ inverse *)
 
 (* rows of a mapping that inverse can turn around: removal rows are skipped; a replacement row has
